@@ -15,7 +15,7 @@ import json
 import os
 
 from engine import Verdict, VERIF
-from facts import AnalysisBroken, Expr, strip, callee_q, callee_name
+from facts import AnalysisBroken, Expr, strip, callee_q, callee_name, callee_cls
 from flow import (edge_guards, origin, unwrap, canon, comparison, cmp_matches,
                   contains, find, defs_of)
 
@@ -297,7 +297,61 @@ def run(fx, tier):
             v.check(cat == want, 'R-FLOW', '%s::%s%s:category' % (f.cls, f.n, '(' + f.tag + ')' if f.tag else ''),
                     'to_reason_code<%s> used where a %s packet is handled (%s)' % (cat, want, how),
                     where='%s:%d' % (f.path_file(), l))
-    v.expect_min('R-FLOW', 10, 'to_reason_code call sites')
+    # admission is decided by the ENGAGEMENT of the returned optional (in the table or not) — not by the truth value of
+    # the reason code itself (reason_code::operator bool means "is an error", 0x80 and above)
+    COLLAPSE_OK = {('read_message_op', 'dispatch'): 'the DISCONNECT reason code is only logged; the connection is shut down whatever it is'}
+    from flow import defs_of as _defs_of
+    n_adm = 0
+    seen_adm = set()
+    for f in fx.fns:
+        if not f.path_file().startswith('boost/mqtt5/'):
+            continue
+        D = _defs_of(f)
+        for b, i, l, c in f.calls():
+            if callee_q(c) != 'boost::mqtt5::to_reason_code':
+                continue
+            skey = (f.cls, f.n, f.tag, l)
+            if skey in seen_adm:
+                continue
+            seen_adm.add(skey)
+            n_adm += 1
+            inst = '%s::%s%s:admission@%s' % (f.cls, f.n, '(' + f.tag + ')' if f.tag else '', l)
+            # the local that holds the optional itself
+            holder = None
+            for d, init in D.decl.items():
+                x = init
+                for _ in range(6):
+                    x = f.resolve(x) if isinstance(x, dict) and x.get('k') == 'elem' else x
+                    x = unwrap(x) if isinstance(x, dict) else x
+                    if isinstance(x, dict) and x.get('k') == 'ctor' and len(x.get('args', [])) == 1:
+                        x = x['args'][0]
+                        continue
+                    break
+                if isinstance(x, dict) and x.get('k') == 'elem':
+                    x = f.resolve(x)
+                if x is c or (isinstance(x, dict) and x.get('k') == 'call' and callee_q(x) == 'boost::mqtt5::to_reason_code'
+                              and x.get('_at', (b, i)) == (b, i) and (f.blocks[b].lines[i] == l)):
+                    holder = d
+            if holder is None:
+                why = COLLAPSE_OK.get((f.cls, f.n))
+                v.check(why is not None, 'R-FLOW', inst,
+                        'the optional is consumed in place (e.g. value_or) before anybody tests whether the code is in the table%s' % (
+                            ' — sanctioned: ' + why if why else ': admission is then decided by something else (reason_code::operator bool is "is an error")'),
+                        key='C20:R-FLOW:%s::%s:admission' % (f.cls, f.n), where='%s:%d' % (f.path_file(), l))
+                continue
+            tested = False
+            for bb in f.blocks:
+                cond = f.term_cond(bb) if f.blocks[bb].term else None
+                if cond is None:
+                    continue
+                from c18 import expand as _expand
+                e = _expand(f, cond)
+                if contains(e, lambda n: n.get('k') == 'call' and callee_cls(n) == 'optional' and callee_name(n) in ('operator bool', 'has_value')
+                            and contains(n.get('obj'), lambda m: m.get('k') == 'ref' and m.get('d') == holder)):
+                    tested = True
+            v.check(tested, 'R-FLOW', inst, 'a branch tests whether to_reason_code() returned a value (the code is in the table) for this packet',
+                    key='C20:R-FLOW:%s::%s:admission' % (f.cls, f.n), where='%s:%d' % (f.path_file(), l))
+    v.expect_min('R-FLOW', 20, 'to_reason_code call sites: category + admission')
     v.expect_min('R-TABLE', 150, 'table rows + server rows + shape')
     v.expect_min('R-DOM', 9 * 5, '9 instantiations × (range, needle, deref, reject, accept)')
     return v.finish(
